@@ -203,10 +203,12 @@ SPEC = dict(
         "TaskQueue.Push / Pop are atomic (tq.lock, and the pool calls them under its own queueLock); ReachableTQ has no notion of a worker — it is "
         "every sequence of atomic calls, which is what several workers produce; with several workers the dequeue order is observed at the hook points queue.push / queue.pop "
         "called under that lock",
-        "HighestPriority with several workers rests on NO theorem: highest_priority_exact is about sequential call sequences. What backs the "
-        "transfer: (1) the extracted fact that no use of incomplete / priorities follows an Unlock of a RootMonitor mutex inside its function "
-        "(textual lock sections, mutex fields recognised by type; 'unknown' when the extractor cannot tell), (2) the race run, (3) the "
-        "schedule-independent HighestPriority oracle in every action, (4) each monitor being driven by one goroutine at a time (by reading)",
+        "HighestPriority with several workers: highest_priority_exact_concurrent / every_read_is_exact hold for EVERY interleaving of any number "
+        "of workers in the model Ecal.Priority.Conc, where each NewChildMonitor / Activate / Skip / Finish call and each HighestPriority read is "
+        "ONE atomic step. What is trusted is that atomicity: (1) the extracted fact that no use of incomplete / priorities follows an Unlock "
+        "of a RootMonitor mutex inside its function (gen_bookkeeping_under_lock; textual lock sections, 'unknown' where the extractor cannot "
+        "tell), (2) the monitor's own flags (activated / finished / skipped) are written outside the lock but only by the one goroutine that "
+        "drives that monitor (by reading), (3) the race run and the in-action HighestPriority oracle as dynamic backing",
         "go/ast fact extractor go/cmd/harness/c10tool.go; three-valued: an obligation breaks only on positive evidence (a constant written to "
         "failOnFirstError; a use after an Unlock; RemoveFirst with nothing after it that reaches a re-heapify; a decrement guarded by the "
         "activated flag alone), everything else is 'unknown'/'other' and left to the correspondence. The flag fact does NOT exclude the "
@@ -242,9 +244,10 @@ META = dict(
                 "may run in any order. (b) every pop returns the least (clamped priority, insertion number), nothing left in a reachable queue "
                 "should have gone first, and the container/heap representation implements this in every reachable state (Push keeps, Pop uses "
                 "the heap order); the same for a TaskQueue shared by any number of workers under any interleaving of atomic pushes and pops, "
-                "and an accepted trace means every recorded pop was the least of its root. (c) for every accepted SEQUENTIAL sequence of NewChildMonitor/Activate/Skip/Finish calls the heap root equals "
+                "and an accepted trace means every recorded pop was the least of its root. (c) for every accepted sequence of NewChildMonitor/Activate/Skip/Finish calls the heap root equals "
                 "the least priority of the monitors activated by a triggering event and not finished (heapify, sift-up, RemoveFirst+Init "
-                "proved); concurrent use is covered by the extracted lock discipline, not by an interleaving model. (d) with fail-on-first-error "
+                "proved), and the same in every state reachable by ANY interleaving of several workers' call sequences with every value read "
+                "being exact at the moment of the read (each call / read one atomic step — that atomicity is the extracted lock fact, not a theorem). (d) with fail-on-first-error "
                 "exactly the prefix through the first failing rule runs and exactly that rule is reported; composed with the queue in the "
                 "one-worker cascade model: the events of every started rule (also of the failing one and of those before it) are processed, "
                 "rules not started add nothing, no event runs twice. (e) without the flag all rules run and all failures are reported; the flag "
@@ -252,7 +255,7 @@ META = dict(
                 "clamping of negative priorities are kept as decide-checked negative theorems."),
     level_note=("Trusted: Lean kernel + propext/Classical.choice/Quot.sound; the correspondence harness and the go/ast extractor; sort.Sort's "
                 "contract; the transcription of container/heap, PriorityQueue and IntHeap into Lean (tied by the Q and B cases incl. slice "
-                "layout); rm.lock / tq.lock linearisation for several workers; scheduling across root monitors is unconstrained; priorities "
+                "layout); that each monitor call / read is one atomic step (rm.lock sections, one goroutine per monitor) and that TaskQueue.Push/Pop are atomic (tq.lock); scheduling across root monitors is unconstrained; priorities "
                 "below 0 deviate (declared)."),
 )
 
